@@ -1,4 +1,4 @@
-# demonstrations of the defects F22 - F27 (each block prints FAIL <id> when the defect is present; exit 1 if any)
+# demonstrations of the defects F22 - F32 (each block prints FAIL <id> when the defect is present; exit 1 if any)
 import sys
 import numpy as np
 from kingdon import Algebra
@@ -74,7 +74,53 @@ def f27():
     return not any(r.values())
 
 
-for fid, f in [("F22", f22), ("F23", f23), ("F24", f24), ("F25", f25), ("F26", f26), ("F27", f27)]:
+def f28():
+    import warnings
+    warnings.simplefilter('ignore')
+    x = a3.vector([3.0, 4.0, 12.0])
+
+    def norm(v): return v.norm()
+    def unit(v): return v.normalized()
+    got = a3.register(symbolic=True)(norm)(x)
+    u = a3.register(symbolic=True)(unit)(x)
+    return abs(got.e - 13.0) < 1e-12 and abs(u.e1 - 3 / 13) < 1e-12
+
+
+def f29():
+    import sympy
+    a, b = sympy.symbols('a b')
+    mv = a3.vector([a, 2.5, b])
+    ok = mv(b=2, a=1).e3 == 2 and mv(1, 2).e3 == 2
+    try:
+        res = mv(a=1, c=2)
+    except TypeError:
+        return ok
+    return False
+
+
+def f30():
+    p = a2.multivector([1., 2., 3., 4.])
+    xn = a2.multivector(np.zeros((4, 4)))
+    xn[:] = p
+    xn3 = a2.multivector(np.zeros((4, 3)))
+    xn3[1] = p
+    return all([float(v) for v in xn[i].values()] == [1., 2., 3., 4.] for i in range(4)) \
+        and [float(v) for v in xn3[1].values()] == [1., 2., 3., 4.] and not np.array(xn3[0].values()).any()
+
+
+def f31():
+    alg = Algebra(3, 1, 1)
+    return all(np.allclose(alg.vector(e1=t).exp().e, np.cosh(1.0), rtol=1e-6) for t in (np.float32(1.0), np.int64(1), 1.0))
+
+
+def f32():
+    x = a2.vector([1.0, 2.0])
+    r = a2.evenmv(np.array([2, 1]))
+    return (x / np.int64(2)).e1 == 0.5 and (x / np.uint8(2)).e2 == 1.0 and abs((r.inv() * r).e - 1.0) < 1e-12
+
+
+for fid, f in [("F22", f22), ("F23", f23), ("F24", f24), ("F25", f25), ("F26", f26), ("F27", f27), ("F28", f28), ("F29", f29), ("F30", f30),
+               ("F31", f31), ("F32", f32)]:
     check(fid, f)
 if bad:
     sys.exit(1)
